@@ -181,6 +181,30 @@ def check_par(tier, pid, chk=None):
         if end != "finished": keys = ["end", "trace"]
         if all(f.get(q) == fm.get(q) for q in keys): agree += 1
         else: dis.append((I, case, oi, om, [q for q in keys if f.get(q) != fm.get(q)]))
+    if dis and not any(v[0] == "property" for v in chk.violations):
+        # the protocol model no longer matches: widen the search for a concrete failing schedule (many random schedules, 2..4 workers,
+        # instances in which several workers report improving solutions)
+        wr = Rng(chk.seed + 991)
+        wcases = []; wopts = []
+        winsts = [gen_layered(wr.fork(), nvars=wr.range(4, 6), per_layer=wr.range(2, 4), dom_max=wr.range(2, 3), dominance=0, rub=wr.choice([0, 1]), dead=False)
+                  for _ in range(100 if tier == "quick" else 400)]
+        wo = oracle_batch([(I.line(), ["O opt"]) for I in winsts])
+        for I, op in zip(winsts, wo):
+            for rep in range(24):
+                T = wr.choice([2, 2, 3, 4]); flv, cache, fr, w = wr.choice(cfgs)
+                cut = 0 if pid == "C03" else wr.choice([0, 0, wr.range(5, 60)])
+                wcases.append((I, ps_line(T, T, flv, cache, fr, w, cut, 0, [wr.below(8) for _ in range(wr.range(10, 150))]), op[0]))
+        wouts = run_ps([(I.line(), c) for I, c, _ in wcases], which=("impl",))
+        stats["widened_search_runs"] = len(wcases)
+        for (I, case, opt), (oi, _) in zip(wcases, wouts):
+            f = kvp(oi); cut = int(case.split()[8])
+            ctx = describe(I, case, oi, optimum=opt, schedule_kind="widened")
+            if f.get("end") != "finished":
+                chk.violation("property", "widened search: parallel maximize() ends with %s" % f.get("end"), ctx)
+            elif cut == 0 and (f.get("x") != "1" or f.get("bv") != opt):
+                chk.violation("property", "widened search: parallel run returns %s (exact=%s); optimum by exhaustive enumeration is %s" % (f.get("bv"), f.get("x"), opt), ctx)
+            elif cut and opt != "none" and f.get("lb") and not (int(f["lb"]) <= int(opt) <= int(f["ub"])):
+                chk.violation("property", "widened search: cut off at poll %d: bounds [%s, %s] do not enclose the optimum %s" % (cut, f["lb"], f["ub"], opt), ctx)
     for (I, case, oi, om, why) in dis[:30]:
         if not any(v[0] == "property" for v in chk.violations):
             chk.violation("unproved", "trace validation: the protocol model (Par.v) and the scheduled real workers differ on %s" % why,
